@@ -1,8 +1,71 @@
-(* FockAxes — property statements shared by C01 (fock_axes) and C05 (fock_locality).  Statements only. *)
-From Coq Require Import List Arith.
-Import ListNotations.
-From SFV Require Import FockAxes.Model FockAxes.Lists FockAxes.Proofs.
+(* FockAxes — property statements shared by C01 (fock_axes) and C05 (fock_locality / fock_prepare).
+   Statements only: each theorem is proved by `exact <lemma>`; one Print Assumptions per theorem.
 
+   Vocabulary (coq/FockAxes/Model.v):
+     tensor            list nat -> V, a function of the multi-index (V arbitrary)
+     transpose t axes  np.transpose:  (transpose t axes) i = t j  with  j[axes[m]] = i[m]
+     put idx T j       idx with the entries at positions T[m] replaced by j[m]
+     gather idx T      [idx[a] for a in T]
+     good_targets n T  T duplicate-free with entries < n
+     respects_shape k F   the abstract matrix action F reads its substate only at multi-indices of length k
+   The matrix itself is abstract (F, G): the theorems hold for every matrix. *)
+From Coq Require Import List Arith Lia.
+Import ListNotations.
+From SFV Require Import FockAxes.Model FockAxes.Lists FockAxes.Proofs FockAxes.TwoMode FockAxes.Channel FockAxes.Prepare.
+
+(* ------------------------------------------------------------------ the vocabulary means what it says *)
+
+(* numpy semantics of the modelled transpose: j[axes[m]] = i[m] *)
+Theorem C01_fock_axes_transpose_semantics :
+  forall (axes i : list nat) (m : nat),
+    is_perm axes -> m < length axes -> nth (nth m axes 0) (unperm axes i) 0 = nth m i 0.
+Proof. exact unperm_spec. Qed.
+Print Assumptions C01_fock_axes_transpose_semantics.
+
+Theorem C01_fock_axes_put_target :
+  forall (idx taxes j : list nat) (m : nat),
+    good_targets (length idx) taxes -> m < length taxes ->
+    nth (nth m taxes 0) (put idx taxes j) 0 = nth m j 0.
+Proof. exact put_target. Qed.
+Print Assumptions C01_fock_axes_put_target.
+
+Theorem C01_fock_axes_put_spectator :
+  forall (idx taxes j : list nat) (a : nat),
+    ~ In a taxes -> nth a (put idx taxes j) 0 = nth a idx 0.
+Proof. exact put_spectator. Qed.
+Print Assumptions C01_fock_axes_put_spectator.
+
+Theorem C01_fock_axes_put_length :
+  forall idx taxes j : list nat, length (put idx taxes j) = length idx.
+Proof. exact length_put. Qed.
+Print Assumptions C01_fock_axes_put_length.
+
+(* ------------------------------------------------------------------ apply_gate_BLAS *)
+
+(* the loop `untranspose_list[transpose_list[i]] = i` builds the inverse permutation *)
+Theorem C01_fock_axes_untranspose_inverse :
+  forall (tl : list nat) (m : nat),
+    is_perm tl -> m < length tl ->
+    nth (nth m tl 0) (untranspose_list tl) 0 = m /\ nth (nth m (untranspose_list tl) 0) tl 0 = m.
+Proof. exact untranspose_list_inverse_pointwise. Qed.
+Print Assumptions C01_fock_axes_untranspose_inverse.
+
+Theorem C01_fock_axes_untranspose_restores :
+  forall (V : Type) (t : @tensor V) (tl idx : list nat),
+    is_perm tl -> length idx = length tl ->
+    transpose (transpose t tl) (untranspose_list tl) idx = t idx.
+Proof. exact @transpose_untranspose_id. Qed.
+Print Assumptions C01_fock_axes_untranspose_restores.
+
+(* the transpose_list of the pure branch is a permutation of range(n) (so the two facts above apply to it) *)
+Theorem C01_fock_axes_transpose_list_is_perm :
+  forall (n : nat) (modes : list nat), good_targets n modes -> is_perm (pure_transpose_list n modes).
+Proof. exact spectators_targets_is_perm. Qed.
+Print Assumptions C01_fock_axes_transpose_list_is_perm.
+
+(* pure state: for every n, every duplicate-free `modes` inside range(n), every psi, every output index:
+   the gate acts on exactly those modes, in the listed order, and reads only entries of psi that agree with
+   idx off the targets.  (C01_fock_axes and C05_fock_locality for apply_gate_BLAS, pure.) *)
 Theorem C01_fock_axes_pure :
   forall (V : Type) (F : @tensor V -> @tensor V) (n : nat) (modes : list nat) (psi : @tensor V) (idx : list nat),
     respects_shape (length modes) F ->
@@ -10,3 +73,221 @@ Theorem C01_fock_axes_pure :
     apply_gate_pure F n modes psi idx = F (fun j => psi (put idx modes j)) (gather idx modes).
 Proof. exact @fock_axes_pure. Qed.
 Print Assumptions C01_fock_axes_pure.
+
+(* mixed state, 2n axes (row, column per mode): the target axes are the rows then the columns of `modes` *)
+Theorem C01_fock_axes_mixed :
+  forall (V : Type) (G : @tensor V -> @tensor V) (n : nat) (modes : list nat) (rho : @tensor V) (idx : list nat),
+    respects_shape (2 * length modes) G ->
+    good_targets n modes -> modes <> [] -> length idx = n * 2 ->
+    apply_gate_mixed G n modes rho idx
+    = G (fun j => rho (put idx (row_axes modes ++ col_axes modes) j))
+        (gather idx (row_axes modes ++ col_axes modes)).
+Proof. exact @fock_axes_mixed. Qed.
+Print Assumptions C01_fock_axes_mixed.
+
+(* the pure and the mixed representation are the same physics for every layout:
+   apply_gate_mixed (mix psi) = mix (apply_gate_pure psi) whenever G is "F on the rows, conj F on the columns" *)
+Theorem C01_fock_axes_mix_commutes :
+  forall (V : Type) (vmul : V -> V -> V) (vconj : V -> V)
+         (F G : @tensor V -> @tensor V) (n : nat) (modes : list nat) (psi : @tensor V) (idx : list nat),
+    respects_shape (length modes) F -> respects_shape (2 * length modes) G ->
+    is_conjugation_of vmul vconj (length modes) F G ->
+    good_targets n modes -> modes <> [] -> length idx = n * 2 ->
+    apply_gate_mixed G n modes (mix vmul vconj n psi) idx
+    = mix vmul vconj n (apply_gate_pure F n modes psi) idx.
+Proof. exact @mixed_of_mix_is_mix_of_pure. Qed.
+Print Assumptions C01_fock_axes_mix_commutes.
+
+(* ------------------------------------------------------------------ apply_twomode_gate *)
+
+(* pure: EVERY ordered pair t1 <> t2 (including t2 = 0, the case repaired by commit e03aca1) *)
+Theorem C01_fock_axes_twomode_pure :
+  forall (V : Type) (F : @tensor V -> @tensor V) (n t1 t2 : nat) (psi : @tensor V) (idx : list nat),
+    respects_shape 2 F -> t1 < n -> t2 < n -> t1 <> t2 -> length idx = n ->
+    apply_twomode_pure F n t1 t2 psi idx
+    = F (fun j => psi (put idx [t1; t2] j)) [nth t1 idx 0; nth t2 idx 0].
+Proof. exact @twomode_pure_correct. Qed.
+Print Assumptions C01_fock_axes_twomode_pure.
+
+(* the two successive switches bring (t1, t2) to axes (0, 1), the other axes stay behind them, and undoing
+   the switches restores the axis order *)
+Theorem C01_fock_axes_twomode_switches :
+  forall (V : Type) (n t1 t2 : nat) (psi : @tensor V),
+    t1 < n -> t2 < n -> t1 <> t2 ->
+    let sw1 := switch_list_1_pure n t1 in
+    let sw2 := switch_list_2_pure n t1 t2 in
+    (forall x, length x = n ->
+       exists y, transpose (transpose psi sw1) sw2 x = psi y /\ length y = n /\
+                 nth t1 y 0 = nth 0 x 0 /\ nth t2 y 0 = nth 1 x 0 /\
+                 (forall a, a < n -> a <> t1 -> a <> t2 -> exists b, 2 <= b < n /\ nth a y 0 = nth b x 0)) /\
+    (forall idx, length idx = n ->
+       transpose (transpose (transpose (transpose psi sw1) sw2) sw2) sw1 idx = psi idx).
+Proof. exact @twomode_pure_axes. Qed.
+Print Assumptions C01_fock_axes_twomode_switches.
+
+(* mixed: F on the row axes (2 m1, 2 m2), then Fc (the kernel with mat.conj()) on the column axes *)
+Theorem C01_fock_axes_twomode_mixed :
+  forall (V : Type) (F Fc : @tensor V -> @tensor V) (n m1 m2 : nat) (rho : @tensor V) (idx : list nat),
+    respects_shape 2 F -> respects_shape 2 Fc ->
+    m1 < n -> m2 < n -> m1 <> m2 -> length idx = 2 * n ->
+    apply_twomode_mixed F Fc n m1 m2 rho idx
+    = Fc (fun cj =>
+            let idx' := put idx [2 * m1 + 1; 2 * m2 + 1] cj in
+            F (fun rj => rho (put idx' [2 * m1; 2 * m2] rj)) [nth (2 * m1) idx' 0; nth (2 * m2) idx' 0])
+         [nth (2 * m1 + 1) idx 0; nth (2 * m2 + 1) idx 0].
+Proof. exact @twomode_mixed_correct. Qed.
+Print Assumptions C01_fock_axes_twomode_mixed.
+
+(* the code before the fix (switch_list_2[[1, t2]] = ...): what it did, when it was right, and that it was wrong *)
+Theorem C01_fock_axes_twomode_pure_old_action :
+  forall (V : Type) (F : @tensor V -> @tensor V) (n t1 t2 : nat) (psi : @tensor V) (idx : list nat),
+    respects_shape 2 F -> t1 < n -> t2 < n -> t1 <> t2 -> length idx = n ->
+    apply_twomode_pure_old F n t1 t2 psi idx
+    = let a := if Nat.eqb t2 0 then (if Nat.eqb t1 1 then 0 else 1) else t1 in
+      let b := if Nat.eqb t2 0 then t1 else t2 in
+      F (fun j => psi (put idx [a; b] j)) [nth a idx 0; nth b idx 0].
+Proof. exact @twomode_pure_old_action. Qed.
+Print Assumptions C01_fock_axes_twomode_pure_old_action.
+
+Theorem C01_fock_axes_twomode_pure_old_correct_when :
+  forall (V : Type) (F : @tensor V -> @tensor V) (n t1 t2 : nat) (psi : @tensor V) (idx : list nat),
+    respects_shape 2 F -> t1 < n -> t2 < n -> t1 <> t2 -> t2 <> 0 -> length idx = n ->
+    apply_twomode_pure_old F n t1 t2 psi idx
+    = F (fun j => psi (put idx [t1; t2] j)) [nth t1 idx 0; nth t2 idx 0].
+Proof. exact @twomode_pure_old_correct_when. Qed.
+Print Assumptions C01_fock_axes_twomode_pure_old_correct_when.
+
+Theorem C01_fock_axes_twomode_pure_old_refuted :
+  exists (F : @tensor nat -> @tensor nat) n t1 t2 (psi : @tensor nat) idx,
+    respects_shape 2 F /\ t1 < n /\ t2 < n /\ t1 <> t2 /\ length idx = n /\
+    apply_twomode_pure_old F n t1 t2 psi idx
+    <> F (fun j => psi (put idx [t1; t2] j)) [nth t1 idx 0; nth t2 idx 0].
+Proof. exact twomode_pure_old_refuted. Qed.
+Print Assumptions C01_fock_axes_twomode_pure_old_refuted.
+
+Theorem C01_fock_axes_twomode_switches_old_refuted :
+  exists n t1 t2, t1 < n /\ t2 < n /\ t1 <> t2 /\
+    exists x, length x = n /\
+      nth t2 (unperm (switch_list_1_pure n t1) (unperm (switch_list_2_pure_old n t2) x)) 0 <> nth 1 x 0.
+Proof. exact twomode_pure_axes_old_refuted. Qed.
+Print Assumptions C01_fock_axes_twomode_switches_old_refuted.
+
+(* ------------------------------------------------------------------ locality (C05) *)
+
+(* the output at idx is the same for any two inputs that agree on all entries agreeing with idx off the targets *)
+Theorem C05_fock_locality_pure :
+  forall (V : Type) (F : @tensor V -> @tensor V) (n : nat) (modes : list nat) (psi psi' : @tensor V) (idx : list nat),
+    respects_shape (length modes) F -> good_targets n modes -> modes <> [] -> length idx = n ->
+    (forall x, agrees_off modes idx x -> psi x = psi' x) ->
+    apply_gate_pure F n modes psi idx = apply_gate_pure F n modes psi' idx.
+Proof. exact @locality_pure. Qed.
+Print Assumptions C05_fock_locality_pure.
+
+Theorem C05_fock_locality_mixed :
+  forall (V : Type) (G : @tensor V -> @tensor V) (n : nat) (modes : list nat) (rho rho' : @tensor V) (idx : list nat),
+    respects_shape (2 * length modes) G -> good_targets n modes -> modes <> [] -> length idx = n * 2 ->
+    (forall x, agrees_off (row_axes modes ++ col_axes modes) idx x -> rho x = rho' x) ->
+    apply_gate_mixed G n modes rho idx = apply_gate_mixed G n modes rho' idx.
+Proof. exact @locality_mixed. Qed.
+Print Assumptions C05_fock_locality_mixed.
+
+Theorem C05_fock_locality_twomode_pure :
+  forall (V : Type) (F : @tensor V -> @tensor V) (n t1 t2 : nat) (psi psi' : @tensor V) (idx : list nat),
+    respects_shape 2 F -> t1 < n -> t2 < n -> t1 <> t2 -> length idx = n ->
+    (forall x, agrees_off [t1; t2] idx x -> psi x = psi' x) ->
+    apply_twomode_pure F n t1 t2 psi idx = apply_twomode_pure F n t1 t2 psi' idx.
+Proof. exact @locality_twomode_pure. Qed.
+Print Assumptions C05_fock_locality_twomode_pure.
+
+Theorem C05_fock_locality_twomode_mixed :
+  forall (V : Type) (F Fc : @tensor V -> @tensor V) (n m1 m2 : nat) (rho rho' : @tensor V) (idx : list nat),
+    respects_shape 2 F -> respects_shape 2 Fc -> m1 < n -> m2 < n -> m1 <> m2 -> length idx = 2 * n ->
+    (forall x, agrees_off [2 * m1; 2 * m2; 2 * m1 + 1; 2 * m2 + 1] idx x -> rho x = rho' x) ->
+    apply_twomode_mixed F Fc n m1 m2 rho idx = apply_twomode_mixed F Fc n m1 m2 rho' idx.
+Proof. exact @locality_twomode_mixed. Qed.
+Print Assumptions C05_fock_locality_twomode_mixed.
+
+(* _apply_channel = sum over the Kraus operators of the mixed gate application *)
+Theorem C05_fock_locality_channel :
+  forall (V : Type) (vadd : V -> V -> V) (vzero : V)
+         (Gs : list (@tensor V -> @tensor V)) (n : nat) (modes : list nat) (rho rho' : @tensor V) (idx : list nat),
+    Forall (respects_shape (2 * length modes)) Gs -> good_targets n modes -> modes <> [] -> length idx = n * 2 ->
+    (forall x, agrees_off (row_axes modes ++ col_axes modes) idx x -> rho x = rho' x) ->
+    apply_channel vadd vzero Gs n modes rho idx = apply_channel vadd vzero Gs n modes rho' idx.
+Proof. exact @locality_channel. Qed.
+Print Assumptions C05_fock_locality_channel.
+
+Theorem C05_fock_channel_axes :
+  forall (V : Type) (vadd : V -> V -> V) (vzero : V)
+         (Gs : list (@tensor V -> @tensor V)) (n : nat) (modes : list nat) (rho : @tensor V) (idx : list nat),
+    Forall (respects_shape (2 * length modes)) Gs -> good_targets n modes -> modes <> [] -> length idx = n * 2 ->
+    apply_channel vadd vzero Gs n modes rho idx
+    = fold_left (fun acc G => vadd acc (G (fun j => rho (put idx (row_axes modes ++ col_axes modes) j))
+                                          (gather idx (row_axes modes ++ col_axes modes)))) Gs vzero.
+Proof. exact @apply_channel_formula. Qed.
+Print Assumptions C05_fock_channel_axes.
+
+(* a channel on a pure state (mix first): each Kraus term reads psi only at the two put-indices *)
+Theorem C05_fock_channel_from_pure_axes :
+  forall (V : Type) (vmul vadd : V -> V -> V) (vconj : V -> V) (vzero : V)
+         (Gs : list (@tensor V -> @tensor V)) (n : nat) (modes : list nat) (psi : @tensor V) (idx : list nat),
+    Forall (respects_shape (2 * length modes)) Gs -> good_targets n modes -> modes <> [] -> length idx = n * 2 ->
+    apply_channel_from_pure vmul vadd vconj vzero Gs n modes psi idx
+    = fold_left (fun acc G => vadd acc (G (fun j => vmul (psi (put (evens n idx) modes (firstn (length modes) j)))
+                                                         (vconj (psi (put (odds n idx) modes (skipn (length modes) j)))))
+                                          (gather idx (row_axes modes ++ col_axes modes)))) Gs vzero.
+Proof. exact @channel_from_pure_formula. Qed.
+Print Assumptions C05_fock_channel_from_pure_axes.
+
+(* ------------------------------------------------------------------ prepare_multimode / alloc (C05_fock_prepare) *)
+
+(* np.argsort of a permutation of range(N) is its inverse permutation *)
+Theorem C05_fock_prepare_argsort :
+  forall l : list nat, is_perm l -> argsort l = inv_perm l.
+Proof. exact argsort_perm_is_inverse. Qed.
+Print Assumptions C05_fock_prepare_argsort.
+
+(* after np.transpose(reduced (x) prepared, argsort(index_permutation)): the prepared state's m-th subsystem sits
+   on mode modes[m] (any order of `modes`), the q-th mode of the reduced state on the q-th remaining mode *)
+Theorem C05_fock_prepare_mixed_axes :
+  forall (V : Type) (vmul : V -> V -> V) (n : nat) (modes : list nat) (reduced prepared : @tensor V) (idx : list nat),
+    good_targets n modes ->
+    prepare_permute false n modes (tensordot0 vmul (2 * (n - length modes)) reduced prepared) idx
+    = vmul (reduced (gather idx (pair_axes (spectators n modes))))
+           (prepared (gather idx (pair_axes modes))).
+Proof. exact @prepare_mixed_axes. Qed.
+Print Assumptions C05_fock_prepare_mixed_axes.
+
+Theorem C05_fock_prepare_pure_all_axes :
+  forall (V : Type) (n : nat) (modes : list nat) (prepared : @tensor V) (idx : list nat),
+    good_targets n modes -> length modes = n ->
+    prepare_permute true n modes prepared idx = prepared (gather idx modes).
+Proof. exact @prepare_pure_all_axes. Qed.
+Print Assumptions C05_fock_prepare_pure_all_axes.
+
+(* alloc: np.tensordot(state, vac, axes=0) — the new modes are the trailing axes, the old ones are untouched *)
+Theorem C05_fock_alloc_axes :
+  forall (V : Type) (vmul : V -> V -> V) (lenu : nat) (u v : @tensor V) (idx_u idx_v : list nat),
+    length idx_u = lenu ->
+    tensordot0 vmul lenu u v (idx_u ++ idx_v) = vmul (u idx_u) (v idx_v).
+Proof. exact @alloc_axes. Qed.
+Print Assumptions C05_fock_alloc_axes.
+
+(* ------------------------------------------------------------------ the hypotheses are satisfiable *)
+
+Example ex_good_targets : good_targets 3 [2; 0].
+Proof. split; [repeat constructor; simpl; intuition lia|]. simpl. intros a [<-|[<-|[]]]; lia. Qed.
+
+Example ex_is_perm : is_perm [2; 0; 1].
+Proof. split; [repeat constructor; simpl; intuition lia|]. simpl. intros a [<-|[<-|[<-|[]]]]; lia. Qed.
+
+(* a genuinely index-mixing kernel: swaps the two target indices and adds a fixed entry *)
+Example ex_respects_shape : respects_shape 2 (fun (s : @tensor nat) o => s [nth 1 o 0; nth 0 o 0] + 3 * s [0; 1]).
+Proof. intros s1 s2 H o. now rewrite !H by reflexivity. Qed.
+
+Example ex_is_conjugation_of :
+  is_conjugation_of Nat.mul (fun x => x) 1 (fun (s : @tensor nat) o => s o) (fun (s : @tensor nat) o => s o).
+Proof.
+  intros s s' r c Hr Hc.
+  destruct r as [|r0 [|? ?]]; simpl in Hr; try lia. reflexivity.
+Qed.
